@@ -117,8 +117,8 @@ def _apply(c, op, arg):
         c.bell()
 
 
-def _mk_api(nops, tiers, timeout):
-    @symx("C15-api-%dops" % nops, tiers=tiers, timeout=timeout, kind="P",
+def _mk_api(nops, tiers, timeout, first=None):
+    @symx("C15-api-%dops%s" % (nops, "" if first is None else "-first%d" % first), tiers=tiers, timeout=timeout, kind="P",
           functions=F_X + ["rich/console.py:Console.print", "rich/console.py:Console.log", "rich/console.py:Console.rule",
                            "rich/console.py:Console.line", "rich/console.py:Console.control", "rich/console.py:Console.show_cursor"],
           bounds="every history of %d operations from {print(4 renderables), print(style=4), log(2), rule(4 titles), line(0..2), "
@@ -129,7 +129,8 @@ def _mk_api(nops, tiers, timeout):
         system = [None, "truecolor"][int(e.mk("system", 0, 1))]
         terminal = bool(e.mkbool("terminal"))
         no_color = bool(e.mkbool("no_color"))
-        ops = [(int(e.mk("op%d" % i, 0, 7)), int(e.mk("arg%d" % i, 0, 3))) for i in range(nops)]
+        ops = [((first if (first is not None and i == 0) else int(e.mk("op%d" % i, 0, 7))), int(e.mk("arg%d" % i, 0, 3)))
+               for i in range(nops)]
         cap_at = int(e.mk("capture_at", 0, nops))      # nops = no capture
         c = mk_console(system, terminal, no_color=no_color)
         for i, (op, arg) in enumerate(ops):
@@ -162,4 +163,5 @@ def _mk_api(nops, tiers, timeout):
 
 
 _mk_api(2, ("quick", "thorough"), 900)
-_mk_api(3, ("thorough",), 3400)
+for _f in range(8):
+    _mk_api(3, ("thorough",), 3400, first=_f)
